@@ -31,10 +31,12 @@ ASSUMPTIONS = ("the set of mutating events is read from the gate trace of the fa
                "io.open/os.* (none exists today) would not be enumerated",)
 
 PATTERN_POOL = ["*", "src/*", "docs/*", "*.py", "src/*.c", "src/core/*", "f?.py", "src/a?c.c", "data/*.json",
-                "README.md", "src/main.c", "sta\\*r.txt", "docs/*/deep.md", "*.md"]
+                "README.md", "src/main.c", "sta\\*r.txt", "docs/*/deep.md", "*.md", "*/deep.md", "data/\\\\*", "data/\\\\raw/*",
+                "sta\\*", "*/x.json", "q\\?.txt"]
 FILE_POOL = ["f1.py", "f22.py", "fx.py", "src/main.c", "src/abc.c", "src/a/c.c", "src/core/x.py", "docs/a.md",
              "docs/sub/deep.md", "data/x.json", "README.md", "sta*r.txt", "staXr.txt", "other.txt", "src/abbc.c",
-             "notes.md", "src/core/deep/y.c"]
+             "notes.md", "src/core/deep/y.c", "docs/deep.md", "deep.md", "docs/notdeep.md", "data/\\raw/file.bin",
+             "data/\\raw/sub/file2.bin", "data/\\x.bin", "sta*/inner.txt", "x.json", "q?.txt", "qa.txt"]
 
 
 def gen_case(seed, tier, index=0):
@@ -134,6 +136,40 @@ def dep5_match(pattern, path):
     return re.fullmatch(rx, path, re.DOTALL) is not None
 
 
+def _features(p):
+    f = set()
+    bare = re.sub(r"\\\\.", "", p)
+    if "?" in bare:
+        f.add("qmark-pattern")
+    for m in re.finditer(r"\\(.)", p):
+        f.add({"*": "escaped-asterisk", "\\": "escaped-backslash"}.get(m.group(1), "escaped-character"))
+    if "*/" in bare:
+        f.add("wildcard-before-slash")
+    return f
+
+
+def _relaxed(p):
+    rx, i = "", 0
+    while i < len(p):
+        c = p[i]
+        if c == "\\" and i + 1 < len(p):
+            rx += re.escape(p[i + 1]) + (".*" if p[i + 1] == "*" else "")
+            i += 2
+            continue
+        if c == "*":
+            rx += ".*"
+            if p[i + 1:i + 2] == "/":
+                rx += "/?"
+                i += 2
+                continue
+        elif c == "?":
+            rx += "."
+        else:
+            rx += re.escape(c)
+        i += 1
+    return rx
+
+
 def _lint_view(rec):
     try:
         d = json.loads(rec.get("stdout", ""))
@@ -205,10 +241,19 @@ def oracle(case, results):
                 vs.append({"sig": f"C17/post/lint-unavailable/{_klass(case, None)}", "detail": f"lint before exit={eb}, after exit={ea}; stderr after: {r0[conv_idx + 1].get('stderr', '')[-500:]}"})
         else:
             differing = sorted(p for p in set(before["files"]) | set(after["files"]) if before["files"].get(p) != after["files"].get(p))
-            if differing or eb != ea or before["cats"] != after["cats"]:
-                p = differing[0] if differing else None
-                vs.append({"sig": f"C17/post/lint-differs/{_klass(case, differing)}",
-                           "detail": f"files attributed differently after conversion: {differing[:6]}; e.g. {p}: before={before['files'].get(p)} after={after['files'].get(p)}; exit {eb}->{ea}"})
+            if differing:
+                # one violation per responsible pattern feature, so that a recorded finding stays specific
+                per_class = {}
+                for p in differing:
+                    for k in _klass(case, [p]).split("+"):
+                        per_class.setdefault(k, []).append(p)
+                for k, ps in sorted(per_class.items()):
+                    p = ps[0]
+                    vs.append({"sig": f"C17/post/lint-differs/{k}",
+                               "detail": f"files attributed differently after conversion: {ps[:6]}; e.g. {p}: before={before['files'].get(p)} after={after['files'].get(p)}; exit {eb}->{ea}"})
+            elif eb != ea or before["cats"] != after["cats"]:
+                vs.append({"sig": "C17/post/lint-differs/categories-only",
+                           "detail": f"exit {eb}->{ea}; before={json.dumps(before['cats'])[:300]} after={json.dumps(after['cats'])[:300]}"})
     # ordering invariant at every crash / error point
     for vi in range(1, len(case["variants"])):
         var = case["variants"][vi]
@@ -255,16 +300,14 @@ def _klass(case, differing):
             hit = [p for p in pats if dep5_match(p, path)]
             if hit:
                 win, win_lic = hit, lic
-        # patterns with escapes may match differently after conversion even when dep5 does not match
-        cands = (win or []) + [p for pats, _ in paras for p in pats if "\\" in p]
-        if win and "\n" in win_lic.strip():
-            klasses.add("license-with-text")
-        elif win and all("?" in p.replace("\\?", "") for p in win):
-            klasses.add("qmark-pattern")
-        elif any("\\" in p for p in cands):
-            klasses.add("escaped-pattern")
-        else:
-            klasses.add("other")
+        # which pattern features can be responsible: every pattern of the file that matches this path under a
+        # relaxed reading (escapes ignored, '?' any character, '*/' also matching nothing)
+        feats = set()
+        for pats, _ in paras:
+            for p in pats:
+                if re.fullmatch(_relaxed(p), path, re.DOTALL):
+                    feats |= _features(p)
+        klasses |= feats or {"other"}
     return "+".join(sorted(klasses))
 
 
